@@ -589,3 +589,64 @@ pub fn case() -> BoxedStrategy<PgCase> {
         })
         .boxed()
 }
+
+/// Byte-level decoding for the libFuzzer target: three bytes of field flags, then
+/// 0xff-separated text chunks handed to the textual fields in order (url first).
+pub fn decode(data: &[u8]) -> PgCase {
+    let flags = data.iter().take(3).fold(0u32, |a, b| (a << 8) | *b as u32);
+    let rest = if data.len() > 3 { &data[3..] } else { &[][..] };
+    let mut chunks = rest.split(|b| *b == 0xff).map(|c| String::from_utf8_lossy(c).to_string());
+    let mut next = |bit: u32| -> Option<String> {
+        let c = chunks.next();
+        if flags >> bit & 1 == 1 {
+            Some(c.unwrap_or_default())
+        } else {
+            None
+        }
+    };
+    let url = next(0);
+    let user = next(1);
+    let password = next(2);
+    let dbname = next(3);
+    let options = next(4);
+    let application_name = next(5);
+    let host = next(6);
+    let hosts = next(7).map(|s| s.split(',').map(|x| x.to_string()).collect());
+    let num = |bit: u32, m: u32| -> Option<u32> {
+        if flags >> bit & 1 == 1 {
+            Some((flags.wrapping_mul(2654435761).rotate_left(bit)) % m)
+        } else {
+            None
+        }
+    };
+    PgCase {
+        url,
+        user,
+        password,
+        dbname,
+        options,
+        application_name,
+        ssl_mode: num(8, 3).map(|v| v as u8),
+        host,
+        hosts,
+        hostaddr: num(9, 2).map(|v| if v == 0 { "127.0.0.1".to_string() } else { "::1".to_string() }),
+        hostaddrs: num(10, 3).map(|v| (0..v).map(|i| format!("10.0.0.{}", i + 1)).collect()),
+        port: num(11, 65536).map(|v| v as u16),
+        ports: num(12, 3).map(|v| (0..v).map(|i| 5432 + i as u16).collect()),
+        connect_timeout_ms: num(13, 100000),
+        keepalives: num(14, 2).map(|v| v == 1),
+        keepalives_idle_ms: num(15, 100000),
+        target_session_attrs: num(16, 2).map(|v| v as u8),
+        channel_binding: num(17, 3).map(|v| v as u8),
+        load_balance_hosts: num(18, 2).map(|v| v as u8),
+        manager: num(19, 4).map(|v| v as u8),
+        pool: num(20, 64).map(|v| PoolCase {
+            max_size: v as u16,
+            wait_ms: num(21, 5000),
+            create_ms: num(22, 5000),
+            recycle_ms: None,
+            lifo: v % 2 == 1,
+        }),
+        runtime: flags >> 23 & 1 == 1,
+    }
+}
